@@ -3,6 +3,7 @@ package shape
 import (
 	"fmt"
 	"go/ast"
+	"go/token"
 	"go/types"
 	"sort"
 	"strings"
@@ -19,11 +20,12 @@ import (
 // `ind:<type>{config}#k(args…)`, stateless closures are inlined as expressions, and anything
 // stateful becomes a named opaque operator. Nothing is evaluated numerically.
 type Terms struct {
-	R      *Result
-	Prog   *load.Program
-	memo   map[*Stream]sym.Expr
-	mach   map[*ast.FuncLit]*dtab.Machine
-	Opaque []string // reasons why some term is only an opaque operator
+	R        *Result
+	Prog     *load.Program
+	memo     map[*Stream]sym.Expr
+	mach     map[*ast.FuncLit]*dtab.Machine
+	Opaque   []string // reasons why some term is only an opaque operator
+	acc      map[types.Object]bool
 	closures map[string]*Closure
 	stages   map[string]*Stage
 }
@@ -37,6 +39,7 @@ func (t *Terms) StageByName(name string) *Stage { return t.stages[name] }
 func initTerms(t *Terms) {
 	t.closures = map[string]*Closure{}
 	t.stages = map[string]*Stage{}
+	t.acc = map[types.Object]bool{}
 
 }
 
@@ -261,7 +264,7 @@ func (t *Terms) exprTerm(fr *Frame, e ast.Expr, delays map[*Stream]*lin.Expr) (s
 			}
 			return nil, fmt.Errorf("unbound %s", x.Name)
 		}
-		return t.valueTerm(cell.V, x.Name, delays)
+		return t.valueTermAt(cell.V, x.Name, delays, x.Pos())
 	case *ast.BasicLit:
 		if n, ok := sym.ParseNum(x.Value); ok {
 			return n, nil
@@ -316,8 +319,40 @@ func (t *Terms) exprTerm(fr *Frame, e ast.Expr, delays map[*Stream]*lin.Expr) (s
 }
 
 func (t *Terms) valueTerm(v Value, name string, delays map[*Stream]*lin.Expr) (sym.Expr, error) {
+	return t.valueTermAt(v, name, delays, token.NoPos)
+}
+
+// valueTermAt: use is where the value is read (a loop-carried variable read before its update
+// holds the previous iteration's value).
+func (t *Terms) valueTermAt(v Value, name string, delays map[*Stream]*lin.Expr, use token.Pos) (sym.Expr, error) {
 	switch x := v.(type) {
 	case ElemV:
+		if x.Carried {
+			if x.Self != nil && t.acc[x.Self] {
+				return sym.V("acc"), nil
+			}
+			if x.Self != nil && x.Def != nil && use.IsValid() && use > x.Def.End() && len(t.acc) == 0 {
+				switch x.Init.(type) {
+				case IntV, NumV:
+					// a fold over the input: acc' = Def(acc, elements), the updated value is what is read
+					init, err := t.valueTermAt(x.Init, name, delays, token.NoPos)
+					if err != nil {
+						return nil, err
+					}
+					t.acc[x.Self] = true
+					body, err := t.exprTerm(x.Fr, x.Def, delays)
+					delete(t.acc, x.Self)
+					if err != nil {
+						return nil, err
+					}
+					return sym.Call{Fn: "scan", Args: []sym.Expr{body, init}}, nil
+				}
+			}
+			return nil, fmt.Errorf("%s depends on loop state", name)
+		}
+		if x.Def != nil && x.Fr != nil {
+			return t.exprTerm(x.Fr, x.Def, delays)
+		}
 		if len(x.Deps) == 1 {
 			return t.delayed(x.Deps[0], delays), nil
 		}
